@@ -220,6 +220,37 @@ def main():
     # ---- the registered non-differentiable functions ----
     # the non-differentiable function set is part of the property, not read off the implementation: the pinned
     # tree's list, plus whatever the current tree adds to it
+    # a function the current tree registers as non-differentiable beyond the pinned list must BE piecewise constant:
+    # its NumPy value does not move under small displacements of any floating-point argument (generic points)
+    for fobj in numpy_vjps.nograd_functions:
+        nm = fobj.__name__
+        if nm in NOGRAD_PINNED:
+            continue
+        base = getattr(onp, nm, None)
+        found = None
+        pts = (onp.array([0.7, -1.3, 2.1]), onp.array([1.9, 0.4, -0.6]))
+        for nargs in (1, 2):
+            try:
+                v0 = base(*pts[:nargs])
+            except Exception:
+                continue
+            found = nargs
+            moved = False
+            for k in range(nargs):
+                for h in (1e-3, -1e-3, 1e-6):
+                    q = [p_.copy() for p_ in pts[:nargs]]
+                    q[k] = q[k] + h
+                    try:
+                        v1 = base(*q)
+                        if onp.shape(v1) != onp.shape(v0) or not onp.array_equal(onp.asarray(v1), onp.asarray(v0)):
+                            moved = True
+                    except Exception:
+                        pass
+            record("new-nograd-is-constant:" + nm, "%d argument(s)" % nargs, not moved,
+                   "registered as non-differentiable, but its value moves with its argument")
+            break
+        if found is None:
+            dist("new-nograd-no-template:" + nm)
     names = sorted(set(NOGRAD_PINNED) | {f.__name__ for f in numpy_vjps.nograd_functions})
     for name in names:
         for rep in range(3):
@@ -280,6 +311,35 @@ def main():
                            {"boxed": seen.get("boxed"), "val": repr(seen.get("val")), "expected": repr(expected)})
             except Exception as ex:
                 record("nograd-method-raised:" + mname, "x=%r" % (x0.tolist(),), False, repr(ex))
+    # ---- operators with piecewise-constant results on traced arrays: NumPy's value exactly, or a loud refusal ----
+    for oname, of in (("x // h", lambda x, h: x // h), ("h // x", lambda x, h: h // x), ("divmod(x, h)[0]", lambda x, h: divmod(x, h)[0]),
+                      ("x // h (array h)", lambda x, h: x // (h * onp.ones_like(x))), ("round(x / h)", lambda x, h: round(x[0] / h)),
+                      ("np.floor_divide(x, h)", lambda x, h: anp.floor_divide(x, h)), ("np.trunc(x / h)", lambda x, h: anp.trunc(x / h)),
+                      ("np.floor(x / h)", lambda x, h: anp.floor(x / h)), ("np.rint(x / h)", lambda x, h: anp.rint(x / h))):
+        for xv, hv in ((1.0, 0.1), (2.0, 0.2), (0.3, 0.1), (1.5, 0.5), (-1.0, 0.3), (7.0, 2.0)):
+            x0 = onp.array([xv, xv + 1.0])
+            try:
+                expected = of(x0, hv)
+            except Exception:
+                continue
+            seen = {}
+
+            def fo(x, of=of, hv=hv):
+                r = of(x, hv)
+                seen["val"] = r
+                seen["boxed"] = has_box(r)
+                return anp.sum(x)
+            for opname, run_ in (("rev", lambda: grad(fo)(x0)), ("fwd", lambda: make_jvp(fo)(x0)(onp.ones_like(x0)))):
+                seen.clear()
+                try:
+                    run_()
+                except Exception:
+                    dist("floor-operator-refused")
+                    continue
+                v = seen.get("val")
+                while isbox(v):
+                    v = v._value
+                record("floor-operator:%s:%s" % (oname, opname), "x=%r h=%r" % (xv, hv), eq(v, expected), {"got": repr(v), "numpy": repr(expected)})
     # ---- derivative flow is blocked: d/dx sum(x * f(x)) = f(x) ----
     for name in ELEMWISE + ["greater", "less"]:
         for rep in range(3):
